@@ -12,18 +12,18 @@ CLAIMS = {
     "C01": ("row merge (MergeRows and helpers) verified for all inputs against the documented merge M written as a spec function; M is commutative, idempotent and "
             "invariant-preserving for all rows, associative / absorbing in the proved cases (no delete; no re-insert after delete on fully assigned rows); the general "
             "associativity and absorption laws fail on the real code and are recorded as known findings; kv value join verified",
-            "absolute times within +-2^62 ns (precondition); mast DiffIter/Insert and the fold over versions (mergeRoots) are not yet under contract; the generic fold lemma is not mechanised", "DESIGN §6 C01"),
+            "absolute times within +-2^62 ns (precondition); the tree merge glue (Tree.Merge, mergeTrees body, the DiffIter adapter, both per-key callbacks, mergeRoots) is verified, WHICH keys mast.DiffIter delivers is an assumed clause; the generic fold-over-versions lemma is not mechanised", "DESIGN §6 C01"),
     "C16": ("node codec: marshalProto and unmarshalProto verified element-wise inverse (keys, the four value fields, child links including absent ones) for every node shape, "
             "all type assertions and indices safe; protobuf transport assumed faithful",
-            "proto.Marshal/Unmarshal assumed (trusted/proto.contracts); flush-before-publish and immutability of stored objects are not yet under contract", "DESIGN §6 C16"),
-    "C20": ("New verified for every argument list: no panic, duplicated/unknown options rejected, numeric options parsed base 0 into the right field, registry changed only on success",
-            "strings.SplitN, strconv.ParseInt assumed; UnquoteAll and the columns grammar (combinator parser) are outside the subset; convertSchema and OpenKV are assumed contracts at this point", "DESIGN §6 C20"),
+            "proto.Marshal/Unmarshal assumed (trusted/proto.contracts); flush-before-publish is an obligation on Commit; that a flushed node object is complete and immutable rests on the assumed mast MakeRoot contract", "DESIGN §6 C16"),
+    "C20": ("New verified for every argument list: no panic, duplicated/unknown options rejected, numeric options parsed base 0 into the right field, registry changed only on success; convertSchema verified for an arbitrary parsed schema (key column = the declared PRIMARY KEY column, at most one key column, distinct names, no DEFAULT, index maps in column order); xConnect/xCreate hand the right arguments to New and a definition rejected at the declare step leaves no table registered (genuine defect found, replayed, fixed)",
+            "strings.SplitN, strconv.ParseInt assumed; UnquoteAll and the columns grammar (combinator parser: closures over mutable parser state) are outside the subset: what the parser returns for a given text is decided only by a bounded grammar run on the real code (labelled bounded)", "DESIGN §6 C20"),
     "C02": ("which columns a statement assigns (valuesToGo / xColumn no-change protocol), the row merge against the documented per-column rule M, the entry-level gate (update = documented kv join) "
             "and the write-time plumbing are verified for all inputs; the xColumn no-change defect was found, replayed at SQL level and fixed",
-            "statement triples for Insert/Update/Delete against the summary semantics are not yet under contract; SQLite's vtab protocol assumed", "DESIGN §6 C02"),
+            "Insert/Update/Delete are verified against delta rows and M, the xUpdate glue hands on the right table, context, key and exactly the assigned columns; SQLite's vtab protocol assumed; known finding: the entry-level gate discards an older statement wholesale", "DESIGN §6 C02"),
     "C04": ("commit ordering proved on every control path: version object PUT only after a successful flush, parents retired only after the version was published, each parent copied to merged/ before it is "
             "deleted from current/, the new version never deleted, a failed commit retires nothing, xCommit issues no storage request",
-            "request-level atomic, fail-stop object store; mast flush contract assumed; the lift from these ordering obligations to 'every crash prefix reads as old or new' is argued in DESIGN (uses M-absorb, proved for fully assigned rows only); open-time merge commit and vacuum not yet under contract", "DESIGN §6 C04"),
+            "request-level atomic, fail-stop object store; mast flush contract assumed; the lift from these ordering obligations to 'every crash prefix reads as old or new' is argued in DESIGN (uses M-absorb, proved for fully assigned rows only); the open-time merge commit goes through the same Commit; vacuum: history is deleted only after the purged tree was committed", "DESIGN §6 C04"),
     "C05": ("BEGIN/COMMIT/ROLLBACK state contracts at both layers: snapshot is an independent clone of the same abstract tree, rollback restores exactly it, a failed commit keeps it, "
             "write-time state machine (fixed for the transaction unless set explicitly, cleared at commit/rollback), connection context invariant",
             "mast.Clone independence assumed; SQLite calls the transaction callbacks in protocol order; statement-level rollback inside a transaction is SQLite's; known finding (obligation Update/post@later-statement-wins-at-equal-time): with ONE write time per transaction a later statement on the same row loses against an earlier one", "DESIGN §6 C05"),
@@ -32,13 +32,13 @@ CLAIMS = {
             "binding accessors/result setters assumed from their source; protobuf transport assumed", "DESIGN §6 C08"),
     "C13": ("effect contracts with ghost PUT/DELETE counters: Commit, Set, Tombstone, xSync and the transaction callbacks issue no PUT/DELETE on a read-only handle and leave the tree unchanged; "
             "moveMergedRoots requires a writable handle at every call site",
-            "mutating requests are issued only through the three trusted primitives; Open/OpenKV/Vacuum/DeleteHistoricVersions not yet under contract", "DESIGN §6 C13"),
+            "mutating requests are issued only through the three trusted primitives (PUT, DELETE, COPY wrappers); Open/OpenKV/New, Vacuum, DeleteHistoricVersions, refresh/version/changes/vacuum glue are under the same effect contracts; which callback SQLite invokes when is assumed", "DESIGN §6 C13"),
     "C15": ("connection attribute invariant (context carries exactly deadline and write_time) preserved by ResetContext/Begin/Commit/Rollback; write time read back from the context; "
             "retry idempotence at the row-merge level (M idempotent, commutative)",
-            "package context assumed; statement-level idempotence through Insert/Update/Delete not yet under contract", "DESIGN §6 C15"),
+            "package context assumed; s3db_conn UPDATE/Column, xDisconnect keep the connection invariant (two genuine defects found, replayed, fixed: DROP TABLE cancelled the connection context; an UPDATE of s3db_conn inside a transaction made the automatic write time permanent); statement-level retry idempotence rests on M-idempotent plus the statement contracts", "DESIGN §6 C15"),
     "C17": ("kv value join (LastWriteWins / firstTombstoneWins / Tombstoned) verified against the documented rule for all inputs; "
             "join laws as SMT lemmas; update/Get/Diff glue contracts",
-            "TraceHistory and the gob/json root codecs are not decided; mast.Mast Get/Insert assumed (finite-map contract)", "DESIGN §6 C17"),
+            "the gob/json root codecs are assumed; mast.Mast Get/Insert assumed (finite-map contract); kv.Diff: the callback sees the visible values, in order, only when they differ (which keys DiffIter delivers is assumed); TraceHistory: starts at the current entry, strictly decreasing times, predecessor cutoff", "DESIGN §6 C17"),
     "C06": ("scan contracts: xBestIndex (both layers) proposes only windows the scan implements and reports ORDER BY as consumed only for a single key term; xFilter positions the cursor on the first key of the window for every operator/direction/bound combination; "
             "xNext steps in key order, skips kv tombstones and deleted rows, stops exactly at the window's end; Column returns the stored value of the current row; five genuine scan defects found, replayed at SQL level and fixed",
             "mast cursor contract assumed (immutable snapshot, strictly increasing keys) and compared with the real dependency by a bounded conformance run: its Backward part is REFUTED (known finding, dependency; s3db no longer requests descending scans, fix a29a1fb); key order treated as an opaque total preorder ordU consistent with Key.Order; SQLite re-checks constraints (Omit unset); known finding: statements of one transaction tie on the write time and the earlier one wins", "DESIGN §6 C06"),
@@ -47,12 +47,12 @@ CLAIMS = {
             "within one storage class the order is a total order; the int->float conversion inside the Go contracts is an uninterpreted monotone function, its exact semantics enters through the SMT-LIB lemma (bit-vectors + floating point); mast's own use of Order/Layer is assumed", "DESIGN §6 C07, §12"),
     "C11": ("a historic open of named versions is a function of exactly those versions: kv.Open issues no LIST, merges strictly (any unreadable named version is an error, never a skip) exactly the named list, and every named version ends up merged; "
             "mergeRoots loop invariant carries this for every order of the random shuffle; a genuine defect (Clone failure skipped in strict mode) found, replayed and fixed; commit publishes the version object only after a successful flush",
-            "naming of versions by content hash and immutability of stored objects rest on the assumed mast/MakeRoot contract; s3db_version / Roots / OpenKV glue not under contract", "DESIGN §6 C11"),
-    "C12": ("the two ends of a diff: kv.Open on a named version list (including the empty list = empty version) reads exactly those versions strictly, with no LIST and no write",
-            "ChangesCursor / DiffCursor / s3db_changes glue are not yet under contract: the row-level statement of C12 is not decided", "DESIGN §6 C12"),
+            "naming of versions by content hash and immutability of stored objects rest on the assumed mast/MakeRoot contract; s3db_version (no name for uncommitted changes), Roots and OpenKV glue are under contract", "DESIGN §6 C11"),
+    "C12": ("the two ends of a diff: kv.Open on a named version list (including the empty list = empty version) reads exactly those versions strictly, with no LIST and no write; ChangesCursor.Next: every delivered row is visible in the target version, no live entry is skipped, the end is reported only at the real end, a failed step is an error (two genuine defects found and fixed); s3db_changes xConnect: from/to reach their own side, never panics (genuine defect fixed)",
+            "that mast's diff sequence is the set difference of the two trees is an assumed contract (trusted/mast.contracts), compared with the real dependency by a bounded conformance run", "DESIGN §6 C12"),
     "C14": ("error propagation contracts: every function under contract returns an error or its full postcondition on every path (scan stepping, statements, commit, open/merge, listing, loading), no nil dereference, index or type-assertion panic for any input; "
             "failed commit retires nothing; strict opens never skip",
-            "hangs, wall-clock bounds and dependency internals are outside contracts; ChangesCursor/Vacuum/OpenKV not yet under contract", "DESIGN §6 C14"),
+            "hangs, wall-clock bounds and dependency internals are outside contracts; ChangesCursor, Vacuum, OpenKV and the module glue (xConnect/xCreate/xDisconnect/xOpen, s3db_conn, s3db_changes) are under the same no-panic / error-or-full-post contracts", "DESIGN §6 C14"),
     "C09": ("vacuum: only rows that are already invisible (deleted) are turned into tombstones; history is deleted only after the purged tree was committed; a version is offered for deletion only if ALL its successors were created no later than the cutoff; "
             "only nodes the diff reported as removed are offered and no node of the handle's own tree is; the rows visible through the table are exactly what they were, whatever the outcome (functional postcondition over the tree); the version shown afterwards is the one whose nodes were protected; nodes are deleted before the versions that reference them; genuine defect found (vacuum deleted shared nodes of the current version: table read empty), replayed and fixed",
             "that mast DiffIter/DiffLinks visit every entry/node is an assumed clause (higher-order dependency); crash points are covered as ordering obligations only; known finding: with node_cache_entries > 0 the node cache keeps remembering deleted nodes as stored (empty table after a later vacuum)", "DESIGN §6 C09, §12"),
